@@ -160,6 +160,40 @@ def g_catalogue():
     return {'Catalogue': (catalogue.emit(cat), cat)}
 
 
+@group('inits')
+def g_inits():
+    """constructor guard chains of every catalogue class whose __init__ is in the accepted subset"""
+    import catalogue
+    from py2coq import coq_prop, coq_name, has_tag
+    cat = catalogue.build()
+    text = HEADER % 'every solver class (constructor guards)'
+    js = {}
+    done = []
+    skipped = []
+    for d in cat:
+        mod = gen.load_module(os.path.join(REPO, d['file']))
+        name = 'i_' + d['class']
+        if name in js:
+            name = 'i_%s_%s' % (d['module'].split('.')[-1], d['class'])
+        try:
+            info = translate_class(mod, d['class'], init_only=True)
+        except Unsupported as ex:
+            skipped.append('%s.%s: %s' % (d['module'], d['class'], str(ex)[-120:]))
+            continue
+        ps = info.params
+        sig = ('(%s : R)' % ' '.join(coq_name(p) for p in ps)) if ps else ''
+        body = 'False' if info.always_raises else coq_prop(info.init_ok)
+        text += '\n(* %s.%s: %d raise site(s) *)\nDefinition %s %s : Prop := %s.\n' % (d['module'], d['class'], len(info.init_raises), name, sig, body)
+        js[name] = {'class': d['class'], 'module': d['module'], 'params': ps, 'init_ok': expr_to_json(info.init_ok),
+                    'always_raises': info.always_raises,
+                    'defaults': {k: expr_to_json(v) for k, v in info.defaults.items() if is_expr(v) and not has_tag(v, 'var')},
+                    'raises': [[expr_to_json(p_), exc, msg, ln] for p_, exc, msg, ln in info.init_raises]}
+        done.append(name)
+    text += '\nDefinition init_translated : list string := [%s].\n' % '; '.join('"%s"%%string' % n for n in done)
+    js['_skipped'] = skipped
+    return {'Init': (text, js)}
+
+
 def main(argv):
     out = os.path.join(os.path.dirname(os.path.dirname(os.path.abspath(__file__))), 'coq', 'gen')
     names = []
